@@ -264,8 +264,7 @@ impl StarkProof {
         for access in public_memory {
             let page_id = Felt::from(access.page);
             let addr = Felt::from(access.address);
-            let val = Felt::from_hex(&access.value)
-                .map_err(|_| anyhow::anyhow!("Invalid memory value"))?;
+            let val = Self::memory_value(&access.value)?;
 
             start_address.entry(page_id).or_insert(addr);
             if page_id == Felt::ZERO {
@@ -303,6 +302,13 @@ impl StarkProof {
 
         Ok(headers)
     }
+    // A public memory value must be a canonical field element in hex.
+    fn memory_value(value: &str) -> anyhow::Result<Felt> {
+        BigUint::from_str_hex(value)
+            .filter(|value| *value < felt_prime())
+            .map(Felt::from)
+            .ok_or(anyhow::anyhow!("Invalid memory value"))
+    }
     fn compute_hash_on_elements(data: &[Felt]) -> Felt {
         let hash = data.iter().fold(Felt::ZERO, |acc, value| pedersen_hash(&acc, value));
         pedersen_hash(&hash, &Felt::from(data.len()))
@@ -321,8 +327,7 @@ impl StarkProof {
         for cell in public_memory {
             let page_id = Felt::from(cell.page);
             let addr = Felt::from(cell.address);
-            let val =
-                Felt::from_hex(&cell.value).map_err(|_| anyhow::anyhow!("Invalid memory value"))?;
+            let val = Self::memory_value(&cell.value)?;
 
             // Insert or get the vector for the current page_id
             let page = pages.entry(page_id).or_insert_with(Vec::new);
